@@ -34,7 +34,7 @@ struct EvIndex
 // own: the caller's statements; others: statements of other threads with return ticket < g0 (only demanded when
 // timestamp ordering is enabled).
 inline bool check_after_flush(World const& w, std::vector<Issue const*> const& must, uint32_t flusher_tid, uint64_t g0, std::string const& file_path,
-                              int file_logger, char const* scen, bool first_time_logger_involved)
+                              int file_logger, char const* scen, bool first_time_logger_involved, int faulty_flush_sink = -1)
 {
   auto evs = recorder().snapshot();
   EvIndex ix{w, evs};
@@ -55,7 +55,9 @@ inline bool check_after_flush(World const& w, std::vector<Issue const*> const& m
         return false;
       }
       auto const& fl = ix.flush_g[si];
-      if (std::upper_bound(fl.begin(), fl.end(), it->second) == fl.end())
+      // a sink scripted to throw from flush_sink() once records no flush event for that call: it is not demanded of
+      // it, but every OTHER sink must still be flushed (a throwing flush must not hide the flush of the sinks after it)
+      if (static_cast<int>(si) != faulty_flush_sink && std::upper_bound(fl.begin(), fl.end(), it->second) == fl.end())
       {
         violation("C06", "sink-not-flushed-after-write-when-flush-returned",
                   J{}.unum("flusher_tid", flusher_tid).unum("tid", is->tid).unum("seq", is->seq).unum("sink", si).unum("write_ticket", it->second).unum("flushes_seen", fl.size()).str("scenario", scen).raw("cfg", w.describe()));
@@ -112,13 +114,19 @@ inline bool flush_F(Rng& r, uint64_t idx)
     fc.set_open_mode('w');
     auto fs_sink = Fe::create_or_get_sink<quill::FileSink>(file_path, fc);
     LoggerDef d;
-    d.name = w.tag + "_file";
+    d.name = w.tag + "_zfile"; // sorts after the other loggers: its sink is flushed after theirs
     d.lg = Fe::create_or_get_logger(d.name, fs_sink, quill::PatternFormatterOptions{"%(message)"}, quill::ClockSourceType::System);
     d.lg->set_log_level(quill::LogLevel::TraceL3);
     file_logger = static_cast<int>(w.loggers.size());
     w.loggers.push_back(d); // no recording sinks
   }
   bool const ordering = w.bo.log_timestamp_ordering_grace_period.count() != 0;
+  int faulty_flush_sink = -1;
+  if (r.chance(1, 3))
+  {
+    faulty_flush_sink = static_cast<int>(r.below(w.sinks.size()));
+    w.sinks[faulty_flush_sink]->throw_on_flush.store(static_cast<int64_t>(r.below(12)));
+  }
   uint32_t const nt = static_cast<uint32_t>(r.range(2, 6));
   g_delay.store(static_cast<uint32_t>(r.pick({0, 1, 2})));
   recorder().clear();
@@ -173,7 +181,7 @@ inline bool flush_F(Rng& r, uint64_t idx)
                                  }
                              }
                            }
-                           if (!check_after_flush(w, must, t + 1, g0, file_path, file_logger, "flush_F", false)) bad.store(true);
+                           if (!check_after_flush(w, must, t + 1, g0, file_path, file_logger, "flush_F", false, faulty_flush_sink)) bad.store(true);
                          }
                        }
                      });
@@ -200,6 +208,12 @@ inline bool flush_S(Rng& r, uint64_t idx)
   w.bo.log_timestamp_ordering_grace_period = std::chrono::microseconds{r.pick({1, 1, 1000})};
   uint64_t const grace_ns = static_cast<uint64_t>(w.bo.log_timestamp_ordering_grace_period.count()) * 1000ull;
   make_topology(w, r, 3, 3);
+  int faulty_flush_sink = -1;
+  if (r.chance(1, 3))
+  {
+    faulty_flush_sink = static_cast<int>(r.below(w.sinks.size()));
+    w.sinks[faulty_flush_sink]->throw_on_flush.store(static_cast<int64_t>(r.below(12)));
+  }
   recorder().clear();
   SRun run{w, r};
   for (uint32_t i = 0; i < r.range(1, 3); ++i) run.spawn();
@@ -221,7 +235,7 @@ inline bool flush_S(Rng& r, uint64_t idx)
     bool* badp = &bad;
     uint64_t* od = &others_demanded;
     ++flushes;
-    run.run_on(s, [wp, rp, sp, li, badp, od, first_time_involved]
+    run.run_on(s, [wp, rp, sp, li, badp, od, first_time_involved, faulty_flush_sink]
                {
                  uint64_t const g0 = ticket();
                  tl_control_op = true;
@@ -236,7 +250,7 @@ inline bool flush_S(Rng& r, uint64_t idx)
                        must.push_back(&is);
                        if (o->tid != sp->tid) ++*od;
                      }
-                 if (!check_after_flush(*wp, must, sp->tid, g0, "", -1, "flush_S", first_time_involved)) *badp = true;
+                 if (!check_after_flush(*wp, must, sp->tid, g0, "", -1, "flush_S", first_time_involved, faulty_flush_sink)) *badp = true;
                },
                "flush_log");
   };
